@@ -1,0 +1,61 @@
+//go:build verif
+
+package remote
+
+import (
+	pb "github.com/bazelbuild/remote-apis/build/bazel/remote/execution/v2"
+
+	"github.com/thought-machine/please/src/core"
+)
+
+// This file only exports unexported things for the /verif conformance harness.
+// It is compiled with -tags verif only.
+
+// VerifDirBuilder exposes the unexported dirBuilder.
+type VerifDirBuilder struct{ b *dirBuilder }
+
+// NewVerifDirBuilder returns a dirBuilder that has no client (nothing in it needs one).
+func NewVerifDirBuilder() *VerifDirBuilder { return &VerifDirBuilder{b: newDirBuilder(nil)} }
+
+// Dir is dirBuilder.Dir.
+func (v *VerifDirBuilder) Dir(name string) *pb.Directory { return v.b.Dir(name) }
+
+// Build is dirBuilder.Build without uploading.
+func (v *VerifDirBuilder) Build() *pb.Directory { return v.b.Build(nil) }
+
+// Dirs returns the builder's map of directories by path.
+func (v *VerifDirBuilder) Dirs() map[string]*pb.Directory { return v.b.dirs }
+
+// VerifOfflineClient returns a Client that never contacts a server: New() without the background init.
+func VerifOfflineClient(state *core.BuildState, shell, home string) *Client {
+	return &Client{
+		state:        state,
+		instance:     state.Config.Remote.Instance,
+		outputs:      map[core.BuildLabel]*pb.Directory{},
+		subrepoTrees: map[core.BuildLabel]*pb.Tree{},
+		platform:     convertPlatform(state.Config.Remote.Platform),
+		shellPath:    shell,
+		userHome:     home,
+	}
+}
+
+// VerifSetTargetOutputs records the remote outputs of an already-built dependency.
+func (c *Client) VerifSetTargetOutputs(label core.BuildLabel, dir *pb.Directory) {
+	c.outputMutex.Lock()
+	defer c.outputMutex.Unlock()
+	c.outputs[label] = dir
+}
+
+// VerifInputDirs runs uploadInputDir + Build without uploading and returns the root and all directories.
+func (c *Client) VerifInputDirs(target *core.BuildTarget, isTest bool) (*pb.Directory, map[string]*pb.Directory, error) {
+	b, err := c.uploadInputDir(nil, target, isTest)
+	if err != nil {
+		return nil, nil, err
+	}
+	return b.Build(nil), b.dirs, nil
+}
+
+// VerifBuildAction is buildAction.
+func (c *Client) VerifBuildAction(target *core.BuildTarget, isTest, stamp bool) (*pb.Command, *pb.Digest, error) {
+	return c.buildAction(target, isTest, stamp, 0)
+}
